@@ -525,13 +525,14 @@ int main(int argc, char **argv)
     cfg.level = "model_checking";
     cfg.engine = is_tsan ? "preemption-bounded DFS under a cooperative futex scheduler, ThreadSanitizer build (race detection on every explored schedule)"
                          : "preemption-bounded DFS under a cooperative futex scheduler (iterative context bounding), one forked process per schedule";
-    cfg.rule = "state = scheduling point (before each psLockMutex, thread start, thread end) of a 2-3 thread harness whose bodies collide on the session table, ticket key list, PRNG and ephemeral-key cache; "
+    cfg.rule = "state = scheduling point (before each psLockMutex, right after each psUnlockMutex, thread start, thread end) of a 2-3 thread harness whose bodies collide on the session table, ticket key list, PRNG and ephemeral-key cache; "
                "every schedule with at most k preemptions is executed; all are distinct choice sequences; non-trivial = all";
     cfg.assumptions[0] = "threads interact only through the library's mutex-protected shared state: scheduling points at lock acquisitions are sufficient provided unsynchronised accesses are caught by the ThreadSanitizer pass over the same schedules";
     cfg.assumptions[1] = "sequential consistency; the scheduler TU is uninstrumented and hands over by raw futex, so ThreadSanitizer only sees the library's own happens-before edges";
     cfg.assumptions[2] = "serializability oracle: per-thread outcome vector (complete, resumed, delivered bytes / key rotation results) must equal that of some preemption-free execution";
     replay = mx_parse_args(argc, argv, &cfg);
     thorough = !strcmp(cfg.tier, "thorough");
+    sr_unlock_points = getenv("MXV_NO_UNLOCK_POINTS") ? 0 : 1;
     cfg.bound = is_tsan ? (thorough ? "preemption bound 2 (2-thread) / 1 (3-thread), TSan" : "preemption bound 1, TSan")
                         : (thorough ? "preemption bound 3 (2-thread scenarios) / 2 (3-thread scenarios)" : "preemption bound 2 (2-thread) / 1-2 (3-thread)");
 
